@@ -90,7 +90,8 @@ def search(item, seed):
     for _ in range(budget(60)):
         case = ap.gen_scene(rnd)
         # thresholds as a configuration file spells them: floats and whole numbers mixed
-        case["thrs"] = rnd.choice([[0.0, 0.3, 0.9, 1.7, 3.0], [0, 0.3, 1, 1.7, 2, 3.0], [0.5, 1, 2, 3]])
+        # ... up to "no limit" (inf is the loosest distance threshold there is)
+        case["thrs"] = rnd.choice([[0.0, 0.3, 0.9, 1.7, 3.0], [0, 0.3, 1, 1.7, 2, 3.0], [0.5, 1, 2, 3], [0.3, 1.7, 10.0, float("inf")]])
         if rnd.random() < 0.35:
             # every 3-D task is judged the same way at frame level; thresholds within [0, 1] so that a mode mix-up cannot hide behind a range assertion
             case["task"] = rnd.choice(["tracking", "fp_validation"])
